@@ -20,6 +20,7 @@ Kernel specification `<kspec>` (one or more tokens); `<fb>` is `filterBoundary()
                                       points; a point missing from the table is a bad request)
   int <n>                             (seq / session only) an integer kernel
   feat <name>                         (op / seq / session only) a kernel given as the name of a feature
+  num                                 (op / seq / session only) a float given as kernel (refused with a TypeError)
 `int(support)` is computed here (floor; support ≥ 1 or the model reports the error first).
 
 `<dim>`: `D` (argument omitted), `C:<FILTER_…>` (module constant), `L:<names>` (list), `S:<chars>` (a str).
@@ -66,6 +67,7 @@ def showErr : Err → String
   | .emptyTrack => "err:empty-track"
   | .nanKernel => "err:nan-kernel"
   | .operands => "err:operands"
+  | .kernelType => "err:kernel-type"
 
 section
 variable {α : Type} [Add α] [Sub α] [Mul α] [Div α] [Neg α] [LT α] [LE α] [DecidableLT α] [DecidableLE α]
@@ -144,6 +146,7 @@ def kspec? (sc : Sc α) : List String → Option (KArg α)
 
 def seqArg? (sc : Sc α) : List String → Option (SeqArg α)
   | ["int", n] => n.toInt?.map SeqArg.int
+  | ["num"] => some SeqArg.num
   | ["feat", n] => if n == "t" || n == "timestamp" || n == "idx" then none else some (SeqArg.feat n)
   | ks => (kspec? sc ks).map SeqArg.k
 
@@ -208,6 +211,7 @@ def handleSc (sc : Sc α) (cmd : String) (args : List String) : String :=
       let src : Option (KSrc α) := match k with
         | .k a => some (.arg a)
         | .feat n => some (.feat n)
+        | .num => some .num
         | .int _ => none
       match src with
       | none => "bad-request"
@@ -226,6 +230,7 @@ def handleSc (sc : Sc α) (cmd : String) (args : List String) : String :=
       let src : Option (KSrc α) := match k with
         | .k a => some (.arg a)
         | .feat n => some (.feat n)
+        | .num => some .num
         | .int _ => none
       let nm : Option OpNames :=
         if form == "one" then some (.one a1 (if a3 == "-" then none else some a3))
